@@ -228,10 +228,17 @@ fn c15_witness() {
 fn ecdsa_jwk(kt: KeyType, size: usize, thumb: bool) {
     let kp = ec_key(kt);
     st().b64_calls = 0;
+    st().jwk_members = 0;
+    st().jwk_alg_len = 0;
     let r = if thumb { kp.jwk_public_key_thumbprint() } else { kp.jwk_public_key() };
     match &r {
         Ok(_v) => {
             let s = st();
+            assert!(s.jwk_members == if thumb { 4 } else { 6 }, "C15: EC JWK must have exactly the members crv, kty, x, y (+ alg, use outside the thumbprint form)");
+            if !thumb {
+                let want: &[u8; 5] = if size == 32 { b"ES256" } else if size == 48 { b"ES384" } else { b"ES512" };
+                assert!(s.jwk_alg_len == 5 && s.jwk_alg == *want, "C15: the JWK alg member must be the JWS algorithm of the curve (ES256 / ES384 / ES512)");
+            }
             assert!(s.b64_calls == 2, "C15: an EC JWK encodes exactly two coordinates");
             assert!(s.b64_in_len[0] == size, "C15: JWK x is not encoded from exactly `size` bytes (fixed width)");
             assert!(s.b64_in_len[1] == size, "C15: JWK y is not encoded from exactly `size` bytes (fixed width)");
@@ -258,6 +265,20 @@ fn rsa_jwk(thumb: bool) {
 // serde_json's Map::insert (BTreeMap<String, Value>) is stubbed in these harnesses: the JSON object
 // itself is not inspected here, only what is handed to the encoder.
 fn map_insert_stub(_m: &mut serde_json::Map<String, Value>, k: String, v: Value) -> Option<Value> {
+    let s = st();
+    s.jwk_members += 1;
+    if k.len() == 3 && k.as_bytes()[0] == b'a' && k.as_bytes()[1] == b'l' && k.as_bytes()[2] == b'g' {
+        if let Value::String(a) = &v {
+            s.jwk_alg_len = a.len();
+            let mut i = 0;
+            while i < 5 {
+                if i < a.len() {
+                    s.jwk_alg[i] = a.as_bytes()[i];
+                }
+                i += 1;
+            }
+        }
+    }
     core::mem::forget(k);
     core::mem::forget(v);
     None
